@@ -64,6 +64,9 @@ pub fn check_sort(g: &Grammar, text: &str) -> Result<Vec<(&'static str, String)>
     let mut out = Vec::new();
     let snaps_before: Vec<_> = f.project.module.iter().map(|m| vcore::dbgtree::parse(&format!("{m:?}")).map(|d| vcore::refsites::snapshot(&d))).collect();
     guard(|| f.sort()).map_err(|p| format!("panic: {p}"))?;
+    if let Err(w) = crate::c08::index_coherent(&f) {
+        out.push(("name-index-incoherent-after-sort", w));
+    }
     // (1) pure permutation, per list
     for (mi, m) in f.project.module.iter().enumerate() {
         let after = vcore::dbgtree::parse(&format!("{m:?}")).map(|d| vcore::refsites::snapshot(&d)).map_err(|e| format!("machinery: {e}"))?;
